@@ -13,6 +13,7 @@ import shutil
 from concurrent.futures import ThreadPoolExecutor
 
 VERIF = os.path.dirname(os.path.dirname(os.path.abspath(__file__)))
+BASE = os.environ.get('SEED_BASE', 'HEAD')     # the /repo commit the stored patch was written against
 PY = '/venv/bin/python'
 
 
@@ -20,7 +21,7 @@ def siblings(name, own):
     pids = [c['property_id'] for c in json.load(open(os.path.join(VERIF, 'MANIFEST.json')))['checks'] if c['property_id'] != own]
     wt = tempfile.mkdtemp(prefix=f'sweep_{name}_', dir='/tmp')
     os.rmdir(wt)
-    subprocess.run(f'git -C /repo worktree add -q --detach {wt} HEAD && git -C {wt} apply {VERIF}/seeded/{name}/patch.diff', shell=True, check=True)
+    subprocess.run(f'git -C /repo worktree add -q --detach {wt} {BASE} && git -C {wt} apply {VERIF}/seeded/{name}/patch.diff', shell=True, check=True)
     fired = []
     try:
         def one(pid):
